@@ -15,7 +15,9 @@ CLAIMED = {
              "mirrored as well-founded recursions): for every valid whole-second point (3 representations, any offset, "
              "24:00, every year in Int), every exact duration of either sign and all 4 modes, the result denotes the "
              "instant shifted by exactly the duration's length, is valid with 0<=h<24, keeps representation and offset; "
-             "p - d = p + (-d). Fractions: C01_tick_over_rat / C01_add_exact_rat state the same for the model addExactQ, "
+             "p - d = p + (-d); Props/C01b: exact durations act as translations - (p+d1)+d2 = p+(d1+d2) as instants "
+             "(C01_add_compose), additions commute (C01_add_commute), (p+d)-d is p (C01_add_sub_cancel), adding one duration to two "
+             "points preserves their comparison (C01_add_preserves_order). Fractions: C01_tick_over_rat / C01_add_exact_rat state the same for the model addExactQ, "
              "which runs _tick_over and the exact part of __add__ statement by statement over exact rationals with the "
              "minute/second slots possibly None (decimal-second, decimal-minute, decimal-hour forms; fractional "
              "hours/minutes/seconds in the duration), and C01_rat_extends_int shows it coincides with the integer model on "
